@@ -25,7 +25,7 @@ PROFILES = {
                         row_weights=(0, 1, 1, 2, 2, 3)),
     'completion': dict(completion=0.6, state_internal=0.0, sm_internal=0.0, depth=(1, 2)),
     'completion_defer': dict(completion=0.6, deferral=1.0, state_internal=0.0, sm_internal=0.0, depth=(1, 1), regions=(2, 3), row_budget=14),
-    'completion_sub': dict(completion=0.7, state_internal=0.0, sm_internal=0.0, depth=(2, 2), regions=(2, 3), row_budget=12, subs_per_level=(1, 2)),
+    'completion_sub': dict(sub_initial=0.8, sub_first_region=True, completion=0.9, state_internal=0.0, sm_internal=0.0, depth=(2, 2), regions=(2, 3), row_budget=12, subs_per_level=(1, 2)),
     'history': dict(history=1.0, depth=(2, 2), row_budget=13, state_internal=0.0, sm_internal=0.0, regions=(1, 3)),
     'hist_explicit': dict(pseudo=1.0, history=1.0, pseudo_kinds=('explicit', 'fork', 'entry_pt'), row_budget=9, states_per_region=(2, 3),
                           depth=(2, 2), state_internal=0.0, sm_internal=0.0, regions=(2, 3)),
@@ -45,7 +45,9 @@ PROFILES = {
                  deferral=0.4, scripts=True),
     'serial': dict(depth=(1, 3), regions=(1, 3), history=0.7, pseudo=0.3, completion=0.2, row_budget=11, state_internal=0.2, sm_internal=0.0,
                    serialize=True),
-    'events': dict(depth=(1, 2), regions=(1, 2), hierarchy_events=1.0, kleene=0.7, nevents=(4, 5), state_internal=0.3, sm_internal=0.0,
+    'events': dict(event_pad=0.6, depth=(1, 2), regions=(1, 2), hierarchy_events=1.0, kleene=0.7, nevents=(4, 5), state_internal=0.3, sm_internal=0.0,
+                   row_weights=(0, 1, 1, 2, 2, 3)),
+    'events_smi': dict(smi_wide=True, event_pad=0.6, depth=(1, 2), regions=(1, 2), hierarchy_events=1.0, kleene=0.7, nevents=(4, 5), state_internal=0.3, sm_internal=0.8,
                    row_weights=(0, 1, 1, 2, 2, 3)),
     'flags': dict(flags=1.0, depth=(1, 3), state_internal=0.0, sm_internal=0.0, scripts=True),
     'policy_after_entry': dict(action_none=0.4, guard_none=0.4, policy='after_entry', flags=0.7, depth=(1, 3), pseudo=0.3, row_budget=12, state_internal=0.2, sm_internal=0.0, scripts=True),
@@ -148,7 +150,8 @@ class Gen:
                 sub_slots.append((ri_, k, s))
         r.shuffle(sub_slots)
         if p.get('sub_initial', 0) > 0 and r.random() < p['sub_initial']:
-            sub_slots.sort(key=lambda t: t[1] != 0)      # submachines as initial states: the whole depth is active after start()
+            # submachines as initial states (of the first regions): the whole depth is active after start()
+            sub_slots.sort(key=lambda t: (t[1] != 0, t[0]) if p.get('sub_first_region') else (t[1] != 0))
         # sparse profiles: a machine's own rows use only a few of the event types, so an event may be known to a nested level
         # and to the root but not to the level in between
         evs = events
@@ -207,7 +210,12 @@ class Gen:
             if st['kind'] == 'simple' and r.random() < p['state_internal']:
                 st['internal'] = [dict(ev=r.choice(evs), guard=self.guard(), actions=self.iactions())
                                   for _ in range(r.choice([1, 1, 2]))]
-        if r.random() < p['sm_internal']:
+        if p.get('smi_wide') and r.random() < p['sm_internal']:
+            # machine-level internal rows triggered by a base class or by the Kleene type (matched for every derived / other type)
+            wide = [e for e in evs if e in ('E0', 'K')]
+            m['internal'] = [dict(ev=r.choice(wide if r.random() < 0.8 else evs), guard=self.guard(), actions=self.iactions())
+                             for _ in range(r.choice([1, 2, 2]))]
+        elif r.random() < p['sm_internal']:
             m['internal'] = [dict(ev=r.choice(evs), guard=self.guard(), actions=self.iactions())
                              for _ in range(r.choice([1, 1, 2]))]
         if p['completion'] > 0:
@@ -252,6 +260,10 @@ class Gen:
             evdefs[1]['base'] = 'E0'
             if nev > 2:
                 evdefs[2]['base'] = self.r.choice(['E1', 'E0'])
+            if p.get('event_pad', 0) > 0:
+                for k_ in (1, 2):
+                    if k_ < nev and self.r.random() < p['event_pad']:
+                        evdefs[k_]['pad'] = True
         if p['hierarchy_events'] > 0:
             for k_, e in enumerate(evdefs):
                 e['body'] = self.r.choice([1, 7, 24, 60, 200])
